@@ -39,8 +39,18 @@ type vSwL struct {
 	closed bool
 }
 
+// peers are kept in a process-wide table keyed by dial address; a port freed by a refusing (closed)
+// listener can be handed out again by the kernel, so every peer of every scenario gets a loopback
+// address of its own (127.x.y.z) and no two scenarios ever share a peer by accident
+var vHAddrSeq int32
+
+func vHNextIP() string {
+	n := atomic.AddInt32(&vHAddrSeq, 1)
+	return fmt.Sprintf("127.%d.%d.%d", 10+(n/(250*250))%200, (n/250)%250, 1+n%250)
+}
+
 func newVSwL(accept bool) (*vSwL, error) {
-	ln, err := net.Listen("tcp", "127.0.0.1:0")
+	ln, err := net.Listen("tcp", vHNextIP()+":0")
 	if err != nil {
 		return nil, err
 	}
@@ -230,8 +240,7 @@ func vNewWorld(spec vHSpec) (*vHWorld, error) {
 				return nil, err
 			}
 			ids = append(ids, len(w.lst))
-			_, port, _ := net.SplitHostPort(l.addr)
-			w.portPeer[port] = len(w.lst)
+			w.portPeer[l.addr] = len(w.lst)
 			w.lst = append(w.lst, l)
 			u.Dial = append(u.Dial, l.addr)
 		}
@@ -239,8 +248,17 @@ func vNewWorld(spec vHSpec) (*vHWorld, error) {
 		pool = append(pool, u)
 	}
 	var inner Selector = &FirstSelection{}
-	if spec.policy == "round_robin" {
+	switch spec.policy {
+	case "round_robin":
 		inner = &RoundRobinSelection{}
+	case "random":
+		inner = &RandomSelection{}
+	case "random_choose":
+		inner = &RandomChoiceSelection{Choose: 2}
+	case "least_conn":
+		inner = &LeastConnSelection{}
+	case "ip_hash":
+		inner = &IPHashSelection{}
 	}
 	w.sel = &vRecSel{inner: inner}
 	w.h = &Handler{Upstreams: pool,
@@ -386,16 +404,88 @@ func (w *vHWorld) toAttempts(calls []vSelCall, proxied bool) []vHAttempt {
 	return out
 }
 
-func (w *vHWorld) record(atts []vHAttempt) {
+// proxied connections open per upstream according to the events (connections held by "hold" included)
+func vEvOpen(ev []vHEvent, ui int) int {
+	n := 0
+	for _, e := range ev {
+		if e.a == ui && e.kind == "open" {
+			n++
+		}
+		if e.a == ui && e.kind == "close" {
+			n--
+		}
+	}
+	return n
+}
+
+// what the property text says about upstream ui at time t after the events ev: out of rotation because of
+// remembered failures or a failed probe; at its connection limit
+func (w *vHWorld) specOut(ev []vHEvent, t int64, ui int) (out, limited bool) {
+	mf := w.maxFailsEff()
+	for _, p := range w.topo[ui] {
+		win := 0
+		if w.counting() {
+			for _, e := range ev {
+				if e.kind == "fail" && e.a == p && e.t > t-w.fd && e.t <= t {
+					win++
+				}
+			}
+		}
+		if mf > 0 && win >= mf {
+			out = true
+		}
+		last, seen := true, false
+		for _, e := range ev {
+			if e.kind == "probe" && e.a == p {
+				last, seen = e.ok, true
+			}
+		}
+		if seen && !last {
+			out = true
+		}
+	}
+	mc := w.limit(ui)
+	limited = mc > 0 && vEvOpen(ev, ui) >= mc
+	return
+}
+
+// records the attempts of one Handle call as events; an attempt for which the selection policy returned
+// nothing is checked on the way: "retries go to another available upstream" - while an upstream is in
+// rotation, Select must not come back empty-handed
+func (w *vHWorld) record(atts []vHAttempt) (cases [][3]string, fails [][2]string) {
 	for _, a := range atts {
 		switch {
 		case a.up < 0:
+			near := false
+			for _, e := range w.events {
+				if e.kind == "fail" && w.counting() {
+					if d := a.t - (e.t + w.fd); d > -vHMargin && d < vHMargin {
+						near = true
+					}
+				}
+			}
+			if near {
+				continue
+			}
+			evs := make([]string, len(w.events))
+			for i, e := range w.events {
+				evs[i] = e.coq()
+			}
+			cases = append(cases, [3]string{fmt.Sprintf("HNoUp %s [%s] %d", w.cfgCoq(), strings.Join(evs, "; "), a.t), "select/none", "1"})
+			for ui := range w.topo {
+				if out, lim := w.specOut(w.events, a.t, ui); !out && !lim {
+					fails = append(fails, [2]string{"C11:retry:no-upstream-although-available",
+						fmt.Sprintf("at t=%d the selection policy returned no upstream although upstream %d is in rotation (no remembered failures >= max_fails, no failed probe, below its connection limit): the attempt is not retried against it", a.t, ui)})
+					break
+				}
+			}
 		case a.peer >= 0:
 			w.events = append(w.events, vHEvent{t: a.t, kind: "fail", a: a.peer})
 		default:
 			w.events = append(w.events, vHEvent{t: a.t, kind: "open", a: a.up})
 		}
 	}
+	return
 }
 
 func (w *vHWorld) closeConn(c *vHConn) bool {
@@ -542,33 +632,9 @@ func (w *vHWorld) oracle(s vHSample) [][2]string {
 			add("C11:active:not-marked-up", fmt.Sprintf("peer %d accepted the last active check but is still marked unhealthy", p))
 		}
 	}
-	mf := w.maxFailsEff()
-	for ui, ids := range w.topo {
-		out := false
-		for _, p := range ids {
-			win := 0
-			if w.counting() {
-				for _, e := range ev {
-					if e.kind == "fail" && e.a == p && e.t > s.t-w.fd && e.t <= s.t {
-						win++
-					}
-				}
-			}
-			if mf > 0 && win >= mf {
-				out = true
-			}
-			last, seen := true, false
-			for _, e := range ev {
-				if e.kind == "probe" && e.a == p {
-					last, seen = e.ok, true
-				}
-			}
-			if seen && !last {
-				out = true
-			}
-		}
+	for ui := range w.topo {
+		out, limited := w.specOut(ev, s.t, ui)
 		mc := w.limit(ui)
-		limited := mc > 0 && s.nOpen[ui] >= mc
 		if mc > 0 && s.nOpen[ui] > mc {
 			add("C11:max_connections:exceeded", fmt.Sprintf("upstream %d has max_connections %d but %d proxied connections are open", ui, mc, s.nOpen[ui]))
 		}
@@ -636,9 +702,14 @@ func vRunHistory(spec vHSpec, script []string, seed uint64) (res vHResult) {
 		switch fs[0] {
 		case "conn":
 			atts, c, herr, _ := w.connect()
-			w.record(atts)
+			cs, fs := w.record(atts)
+			res.cases = append(res.cases, cs...)
+			res.fails = append(res.fails, fs...)
 			if c != nil && c.open {
 				served = append(served, c.up)
+				if out, _ := w.specOut(w.events[:len(w.events)-1], w.events[len(w.events)-1].t, c.up); out {
+					res.fails = append(res.fails, [2]string{"C11:rotation:early-return", fmt.Sprintf("a connection was proxied to upstream %d at t=%d although it should be out of rotation", c.up, w.events[len(w.events)-1].t)})
+				}
 			} else if herr != nil && strings.HasPrefix(herr.Error(), "harness:") {
 				res.err = herr.Error()
 				return
@@ -670,6 +741,20 @@ func vRunHistory(spec vHSpec, script []string, seed uint64) (res vHResult) {
 		case "probe":
 			if arg < len(w.lst) {
 				w.probe(arg)
+			}
+		case "hold", "unhold":
+			// a connection to upstream arg held by somebody else sharing the peers (another handler dialing the
+			// same address): counted on its peers, as Handle does
+			if arg < len(w.topo) {
+				d, kind := 1, "open"
+				if fs[0] == "unhold" {
+					d, kind = -1, "close"
+				}
+				t := w.now()
+				for _, p := range w.topo[arg] {
+					_ = w.peerOf[p].countConn(d)
+				}
+				w.events = append(w.events, vHEvent{t: t, kind: kind, a: arg})
 			}
 		case "fail":
 			// a dial of peer arg fails now (white box: what dialPeers does on an error), whatever the
@@ -784,7 +869,7 @@ func vRunRetry(rs vRetrySpec) (res vHResult) {
 		if !strings.Contains(msg, "no upstreams available") {
 			result = -3
 			for port, p := range w.portPeer {
-				if strings.Contains(msg, ":"+port) {
+				if strings.Contains(msg, port) {
 					result = int64(p)
 				}
 			}
@@ -927,6 +1012,29 @@ func TestVerifC11(t *testing.T) {
 			addHist(spec, []string{"fail:0", "sleep:60", "fail:0", "sleep:80", "fail:0", "sleep:120", "fail:0", "conn", "expire", "conn", "close:0", "close:0"})
 		}
 	}
+	// 4d. fail-over under every shipped selection policy: the upstream listed first is out of rotation
+	// (remembered failure / failed active check / at its connection limit) and has the fewest open
+	// connections, the available ones carry load; every connection must be proxied to an available one
+	for _, pol := range []string{"first", "random", "random_choose", "least_conn", "round_robin", "ip_hash"} {
+		for reason := 0; reason < 3; reason++ {
+			spec := vHSpec{topo: [][]bool{{false}, {true}, {true}}, passive: true, failDur: 3000 * ms, maxFails: 1, tryDur: 200 * ms, tryInt: 30 * ms, policy: pol}
+			if pol == "least_conn" || reason == 1 {
+				spec.topo = [][]bool{{false}, {true}}
+			}
+			var script []string
+			switch reason {
+			case 0:
+				script = []string{"fail:0", "conn", "conn", "conn", "conn", "close:0", "conn", "close:0", "close:0", "close:0", "close:0"}
+			case 1:
+				script = []string{"probe:0", "conn", "conn", "conn", "close:1", "conn", "close:0", "close:0", "close:0"}
+			default:
+				spec.topo[0][0] = true
+				spec.maxConns = []int{1, 0, 0}[:len(spec.topo)]
+				script = []string{"hold:0", "conn", "conn", "conn", "conn", "close:0", "conn", "unhold:0", "conn", "close:0", "close:0", "close:0", "close:0", "close:0"}
+			}
+			addHist(spec, script)
+		}
+	}
 	// 5. random histories
 	nr := vN(16)
 	for i := 0; i < nr; i++ {
@@ -944,7 +1052,7 @@ func TestVerifC11(t *testing.T) {
 			}
 		}
 		spec := vHSpec{topo: topo, passive: rng.Intn(6) != 0, failDur: time.Duration([]int{120, 180, 260, 400}[rng.Intn(4)]) * ms, maxFails: rng.Intn(4),
-			tryDur: time.Duration([]int{0, 100, 200}[rng.Intn(3)]) * ms, tryInt: 30 * ms, policy: []string{"first", "round_robin"}[rng.Intn(2)]}
+			tryDur: time.Duration([]int{0, 100, 200}[rng.Intn(3)]) * ms, tryInt: 30 * ms, policy: []string{"first", "round_robin", "least_conn", "random", "random_choose", "ip_hash"}[rng.Intn(6)]}
 		if rng.Intn(3) == 0 {
 			spec.maxConns = make([]int, nup)
 			spec.maxConns[rng.Intn(nup)] = 1 + rng.Intn(2)
